@@ -8,7 +8,8 @@ EXTENDS Braid, Json
 CONSTANTS N,          \* commands beyond init
           Kinds,      \* subset of {"b0", "b1", "fin"}
           Ops,        \* subset of {"n", "s", "d", "x"}
-          EmitEvery   \* emit one REPLAY line for a state with probability 1/EmitEvery
+          EmitEvery,  \* emit one REPLAY line for one state in EmitEvery (deterministic checksum)
+          EmitSalt    \* which residue class is emitted (the driver passes VERIF_SEED)
 
 UsedRanks == {dag[c].rank : c \in Nodes}
 
@@ -77,5 +78,10 @@ Case ==
       seq   |-> IF rb.err THEN <<>> ELSE (IF multi THEN BraidOrder(H) ELSE OrderAt(hs[1])),
       facts |-> IF rb.err THEN EmptyFacts ELSE FactsOf(H),
       hello |-> HelloId(H)]
-Emit == (EmitEvery = 1 \/ RandomElement(1..EmitEvery) = 1) => PrintT("REPLAY " \o ToJson(Case))
+RECURSIVE Checksum(_)
+Checksum(c) == IF c = 0 THEN 0
+               ELSE Checksum(c - 1) + c * (dag[c].rank + 3 * dag[c].prio + 5 * Len(Par(c))
+                                            + (IF Par(c) = <<>> THEN 0 ELSE 7 * Par(c)[1])
+                                            + (IF IsFin(c) THEN 11 ELSE 0))
+Emit == (EmitEvery = 1 \/ (Checksum(Len(dag)) + EmitSalt) % EmitEvery = 0) => PrintT("REPLAY " \o ToJson(Case))
 =================================================================================
